@@ -40,20 +40,36 @@ def case_strategy(draw: Any) -> Dict[str, Any]:
         "conns": draw(st.lists(st.sampled_from(PHASES), min_size=0, max_size=5)),
         "trigger": draw(st.sampled_from(["callable", "callable", "max_requests"])),
         "lifespan_delay": draw(st.sampled_from([0.0, 0.0, 1.0])),
+        # how the slow applications spread their response over time: all of it at the end, or
+        # the body early and only the (empty / last) final message inside the grace period
+        "tail": draw(st.sampled_from(["none", "none", "empty", "data"])),
     }
 
 
 def programs_for(case: Dict[str, Any]) -> Dict[str, list]:
     g = case["graceful"]
     ok = ["respond", 200, [["content-length", "2"]], ["ok"]]
+    tail = case.get("tail", "none")
+
+    def slow(dt: float) -> list:
+        if tail == "none":
+            return [["recv_all"], ["sleep", dt], ok]
+        first, last = ("ok", "") if tail == "empty" else ("o", "k")
+        return [["recv_all"],
+                ["send", {"type": "http.response.start", "status": 200,
+                          "headers": [["content-length", "2"]]}],
+                ["send", {"type": "http.response.body", "body": first, "more_body": True}],
+                ["sleep", dt],
+                ["send", {"type": "http.response.body", "body": last, "more_body": False}]]
+
     return {
         "lifespan": [["recv"], ["send", {"type": "lifespan.startup.complete"}], ["recv"],
                      ["sleep", case["lifespan_delay"]],
                      ["send", {"type": "lifespan.shutdown.complete"}]],
         "/quick": [["recv_all"], ok],
-        "/short": [["recv_all"], ["sleep", 1.0 + g / 2], ok],
-        "/shorter": [["recv_all"], ["sleep", 1.0 + g / 4], ok],
-        "/long": [["recv_all"], ["sleep", 1.0 + 3 * g], ok],
+        "/short": slow(1.0 + g / 2),
+        "/shorter": slow(1.0 + g / 4),
+        "/long": slow(1.0 + 3 * g),
         "/stuck": [["recv_all"], ["sleep", 1e7], ok],
         # 4 MiB to a client that never reads: the application ends up waiting inside a write
         "/huge": [["recv_all"], ["respond", 200, [], ["h" * 65536] * 64]],
@@ -232,7 +248,9 @@ def judge(case: Dict[str, Any], res: Any) -> None:
             if c.eof_at is None or c.eof_at > t0 + g + eps:
                 raise Violation("not_closed_by_deadline", f"{phase} connection closed at "
                                 f"t={c.eof_at}; trigger {t0} + graceful {g}", **ptag)
-            if phase != "ws":
+            # (with tail == "empty" every announced byte was sent before the trigger: the
+            # response is complete on the wire whatever happens to the application later)
+            if phase != "ws" and not (phase == "long" and case.get("tail") == "empty"):
                 resps, _, err = parse_responses(c.received(), ["GET"], True)
                 if any(r.complete and r.status < 500 for r in resps):
                     raise Violation("cancelled_request_looks_complete", f"{resps[0].to_json()}",
